@@ -61,29 +61,29 @@ package allocation
 //@   ensures res != nil && fresh(res) && res.Addr == addr && res.timeout == timeout && res.log == log && res.lifetimeTimer == nil && res.allocation == nil
 
 //@ func (*Permission).start
-//@   ensures [C01,C07:armed] timerSet(p.lifetimeTimer, lifetime) && fresh(p.lifetimeTimer)
-//@   ensures [C01,C07:expiry-action] clofn(timerfn(p.lifetimeTimer)) == fnid("(*Permission).start$1") && *clovar(timerfn(p.lifetimeTimer), "(*Permission).start$1", 0) == p
+//@   ensures [C01,C02,C07:armed] timerSet(p.lifetimeTimer, lifetime) && fresh(p.lifetimeTimer)
+//@   ensures [C01,C02,C07:expiry-action] clofn(timerfn(p.lifetimeTimer)) == fnid("(*Permission).start$1") && *clovar(timerfn(p.lifetimeTimer), "(*Permission).start$1", 0) == p
 //@   ensures forall t :: t != p.lifetimeTimer ==> dur(t) == old(dur(t)) && armed(t) == old(armed(t)) && timerfn(t) == old(timerfn(t))
 //@   assigns p.lifetimeTimer, timers
 
 //@ func (*Permission).start$1
 //@   requires p != nil && p.allocation != nil && p.allocation.fiveTuple != nil
-//@   ensures [C01,C07:expire] !has(p.allocation.permissions, ipKey(p.Addr))
-//@   ensures [C01,C07:expire-frame] forall k :: k != ipKey(p.Addr) ==> haskey(p.allocation.permissions, k) == old(haskey(p.allocation.permissions, k))
-//@   ensures [C01,C07:expire-own] old(permKeysOK(p.allocation)) ==> forall k :: old(haskey(p.allocation.permissions, k) && valat(p.allocation.permissions, k) == p) ==> !haskey(p.allocation.permissions, k)
+//@   ensures [C01,C02,C07:expire] !has(p.allocation.permissions, ipKey(p.Addr))
+//@   ensures [C01,C02,C07:expire-frame] forall k :: k != ipKey(p.Addr) ==> haskey(p.allocation.permissions, k) == old(haskey(p.allocation.permissions, k))
+//@   ensures [C01,C02,C07:expire-own] old(permKeysOK(p.allocation)) ==> forall k :: old(haskey(p.allocation.permissions, k) && valat(p.allocation.permissions, k) == p) ==> !haskey(p.allocation.permissions, k)
 
 //@ func (*Permission).refresh
 //@   requires [C18:timer-set] p.lifetimeTimer != nil
 //@   requires p.log != nil && p.allocation != nil
-//@   ensures [C01,C07:restarted] timerSet(p.lifetimeTimer, lifetime)
+//@   ensures [C01,C02,C07:restarted] timerSet(p.lifetimeTimer, lifetime)
 //@   ensures forall t :: t != p.lifetimeTimer ==> dur(t) == old(dur(t)) && armed(t) == old(armed(t))
 //@   ensures forall t :: timerfn(t) == old(timerfn(t))
 //@   assigns timers
 
 //@ func (*Allocation).RemovePermission
 //@   requires a.fiveTuple != nil
-//@   ensures [C01,C07:removed] !has(a.permissions, ipKey(addr))
-//@   ensures [C01,C07:frame] forall k :: k != ipKey(addr) ==> haskey(a.permissions, k) == old(haskey(a.permissions, k)) && valat(a.permissions, k) == old(valat(a.permissions, k))
+//@   ensures [C01,C02,C07:removed] !has(a.permissions, ipKey(addr))
+//@   ensures [C01,C02,C07:frame] forall k :: k != ipKey(addr) ==> haskey(a.permissions, k) == old(haskey(a.permissions, k)) && valat(a.permissions, k) == old(valat(a.permissions, k))
 //@   assigns entries(a.permissions)
 
 //@ func (*Allocation).AddPermission
@@ -92,16 +92,16 @@ package allocation
 //@   requires [C03:authed] authOK && a.userID == authUser
 //@   requires [C01:granted] granted[ipKey(perms.Addr)]
 //@   requires [C01:family] famOK(ipOf(perms.Addr), int(a.addressFamily))
-//@   ensures [C07:installed] has(a.permissions, ipKey(perms.Addr))
-//@   ensures [C01,C07:full-restart] timerSet(a.permissions[ipKey(perms.Addr)].lifetimeTimer, perms.timeout)
-//@   ensures [C07:same-entry] old(has(a.permissions, ipKey(perms.Addr))) ==> a.permissions[ipKey(perms.Addr)] == old(a.permissions[ipKey(perms.Addr)])
-//@   ensures [C07:new-entry] !old(has(a.permissions, ipKey(perms.Addr))) ==> a.permissions[ipKey(perms.Addr)] == perms && perms.allocation == a
-//@   ensures [C01,C07:frame] forall k :: k != ipKey(perms.Addr) ==> haskey(a.permissions, k) == old(haskey(a.permissions, k)) && valat(a.permissions, k) == old(valat(a.permissions, k))
-//@   ensures [C01,C07:other-timers] old(has(a.permissions, ipKey(perms.Addr))) ==> forall t :: t != old(a.permissions[ipKey(perms.Addr)].lifetimeTimer) ==> dur(t) == old(dur(t)) && armed(t) == old(armed(t))
-//@   ensures [C01,C07:other-timers-new] !old(has(a.permissions, ipKey(perms.Addr))) ==> fresh(perms.lifetimeTimer) && forall t :: t != perms.lifetimeTimer ==> dur(t) == old(dur(t)) && armed(t) == old(armed(t))
+//@   ensures [C01,C02,C07:installed] has(a.permissions, ipKey(perms.Addr))
+//@   ensures [C01,C02,C07:full-restart] timerSet(a.permissions[ipKey(perms.Addr)].lifetimeTimer, perms.timeout)
+//@   ensures [C01,C02,C07:same-entry] old(has(a.permissions, ipKey(perms.Addr))) ==> a.permissions[ipKey(perms.Addr)] == old(a.permissions[ipKey(perms.Addr)])
+//@   ensures [C01,C02,C07:new-entry] !old(has(a.permissions, ipKey(perms.Addr))) ==> a.permissions[ipKey(perms.Addr)] == perms && perms.allocation == a
+//@   ensures [C01,C02,C07:frame] forall k :: k != ipKey(perms.Addr) ==> haskey(a.permissions, k) == old(haskey(a.permissions, k)) && valat(a.permissions, k) == old(valat(a.permissions, k))
+//@   ensures [C01,C02,C07:other-timers] old(has(a.permissions, ipKey(perms.Addr))) ==> forall t :: t != old(a.permissions[ipKey(perms.Addr)].lifetimeTimer) ==> dur(t) == old(dur(t)) && armed(t) == old(armed(t))
+//@   ensures [C01,C02,C07:other-timers-new] !old(has(a.permissions, ipKey(perms.Addr))) ==> fresh(perms.lifetimeTimer) && forall t :: t != perms.lifetimeTimer ==> dur(t) == old(dur(t)) && armed(t) == old(armed(t))
 //@   ensures allocWF(a) && permTimers(a)
-//@   ensures [C01,C07:keys] old(permKeysOK(a)) ==> permKeysOK(a)
-//@   ensures [C07:timers-disjoint] old(timersDisjoint(a)) ==> timersDisjoint(a)
+//@   ensures [C01,C02,C07:keys] old(permKeysOK(a)) ==> permKeysOK(a)
+//@   ensures [C01,C02,C07:timers-disjoint] old(timersDisjoint(a)) ==> timersDisjoint(a)
 //@   assigns entries(a.permissions), perms.allocation, perms.lifetimeTimer, timers
 
 //@      // ---- channel bindings (C07, C08). chanInv is the one-to-one invariant of the property.
@@ -119,22 +119,22 @@ package allocation
 //@   ensures res != nil && fresh(res) && res.Number == number && res.Peer == peer && res.log == log && res.lifetimeTimer == nil && res.allocation == nil
 
 //@ func (*ChannelBind).start
-//@   ensures [C07:armed] timerSet(c.lifetimeTimer, lifetime) && fresh(c.lifetimeTimer)
-//@   ensures [C07,C08:expiry-action] clofn(timerfn(c.lifetimeTimer)) == fnid("(*ChannelBind).start$1") && *clovar(timerfn(c.lifetimeTimer), "(*ChannelBind).start$1", 0) == c
+//@   ensures [C01,C02,C07:armed] timerSet(c.lifetimeTimer, lifetime) && fresh(c.lifetimeTimer)
+//@   ensures [C01,C02,C07,C08:expiry-action] clofn(timerfn(c.lifetimeTimer)) == fnid("(*ChannelBind).start$1") && *clovar(timerfn(c.lifetimeTimer), "(*ChannelBind).start$1", 0) == c
 //@   ensures forall t :: t != c.lifetimeTimer ==> dur(t) == old(dur(t)) && armed(t) == old(armed(t)) && timerfn(t) == old(timerfn(t))
 //@   assigns c.lifetimeTimer, timers
 
 //@ func (*ChannelBind).refresh
 //@   requires [C18:timer-set] c.lifetimeTimer != nil
 //@   requires c.log != nil && c.allocation != nil
-//@   ensures [C07:restarted] timerSet(c.lifetimeTimer, lifetime)
+//@   ensures [C01,C02,C07:restarted] timerSet(c.lifetimeTimer, lifetime)
 //@   ensures forall t :: t != c.lifetimeTimer ==> dur(t) == old(dur(t)) && armed(t) == old(armed(t))
 //@   ensures forall t :: timerfn(t) == old(timerfn(t))
 //@   assigns timers
 
 //@ func (*Allocation).RemoveChannelBind
 //@   requires chansWF(a) && a.fiveTuple != nil
-//@   ensures [C07,C08:removed] old(chanNumsUnique(a)) ==> forall i :: 0 <= i && i < len(a.channelBindings) ==> a.channelBindings[i].Number != number
+//@   ensures [C01,C02,C07,C08:removed] old(chanNumsUnique(a)) ==> forall i :: 0 <= i && i < len(a.channelBindings) ==> a.channelBindings[i].Number != number
 //@   ensures [C08:result] res == old(exists i :: 0 <= i && i < len(a.channelBindings) && a.channelBindings[i].Number == number)
 //@   ensures [C08:len] len(a.channelBindings) == old(len(a.channelBindings)) - (res ? 1 : 0)
 //@   ensures [C08:kept] !res ==> sameSlice(a.channelBindings, old(a.channelBindings))
@@ -148,7 +148,7 @@ package allocation
 
 //@ func (*ChannelBind).start$1
 //@   requires c != nil && c.allocation != nil && c.allocation.fiveTuple != nil && chansWF(c.allocation) && c.log != nil
-//@   ensures [C07,C08:expire] old(chanNumsUnique(c.allocation)) ==> forall i :: 0 <= i && i < len(c.allocation.channelBindings) ==> c.allocation.channelBindings[i].Number != c.Number
+//@   ensures [C01,C02,C07,C08:expire] old(chanNumsUnique(c.allocation)) ==> forall i :: 0 <= i && i < len(c.allocation.channelBindings) ==> c.allocation.channelBindings[i].Number != c.Number
 
 //@ spec func conflicts(a *Allocation, num int, peer net.Addr) bool = exists i :: 0 <= i && i < len(a.channelBindings) && ((addrEqual(a.channelBindings[i].Peer, peer) && int(a.channelBindings[i].Number) != num) || (int(a.channelBindings[i].Number) == num && !addrEqual(a.channelBindings[i].Peer, peer)))
 
@@ -166,11 +166,11 @@ package allocation
 //@   ensures [C08:nums-unique] old(chanNumsUnique(a)) ==> chanNumsUnique(a)
 //@   ensures [C08:peers-unique] old(chanPeersUnique(a)) ==> chanPeersUnique(a)
 //@   ensures [C08:range] old(chanRange(a)) ==> chanRange(a)
-//@   ensures [C07:chan-timer-new] res == nil && old(forall i :: 0 <= i && i < len(a.channelBindings) ==> a.channelBindings[i].Number != chanBind.Number) ==> len(a.channelBindings) == old(len(a.channelBindings)) + 1 && a.channelBindings[len(a.channelBindings)-1] == chanBind && timerSet(chanBind.lifetimeTimer, channelLifetime)
-//@   ensures [C07:chan-timer-refresh] res == nil && old(chanNumsUnique(a)) ==> forall i :: 0 <= i && i < len(a.channelBindings) && a.channelBindings[i].Number == chanBind.Number ==> timerSet(a.channelBindings[i].lifetimeTimer, channelLifetime)
-//@   ensures [C01,C07:perm-timer] res == nil ==> has(a.permissions, ipKey(chanBind.Peer)) && timerSet(a.permissions[ipKey(chanBind.Peer)].lifetimeTimer, permissionLifetime)
+//@   ensures [C01,C02,C07:chan-timer-new] res == nil && old(forall i :: 0 <= i && i < len(a.channelBindings) ==> a.channelBindings[i].Number != chanBind.Number) ==> len(a.channelBindings) == old(len(a.channelBindings)) + 1 && a.channelBindings[len(a.channelBindings)-1] == chanBind && timerSet(chanBind.lifetimeTimer, channelLifetime)
+//@   ensures [C01,C02,C07:chan-timer-refresh] res == nil && old(chanNumsUnique(a)) ==> forall i :: 0 <= i && i < len(a.channelBindings) && a.channelBindings[i].Number == chanBind.Number ==> timerSet(a.channelBindings[i].lifetimeTimer, channelLifetime)
+//@   ensures [C01,C02,C07:perm-timer] res == nil ==> has(a.permissions, ipKey(chanBind.Peer)) && timerSet(a.permissions[ipKey(chanBind.Peer)].lifetimeTimer, permissionLifetime)
 //@   ensures allocWF(a) && permTimers(a) && chanTimers(a) && timersDisjoint(a) && chansWF(a) && chanPeersNonNil(a)
-//@   ensures [C01,C07:keys] old(permKeysOK(a)) ==> permKeysOK(a)
+//@   ensures [C01,C02,C07:keys] old(permKeysOK(a)) ==> permKeysOK(a)
 //@   assigns a.channelBindings, mem(a.channelBindings), chanBind.allocation, chanBind.lifetimeTimer, entries(a.permissions), timers
 
 //@      // ---- 5-tuple identity (C04): the fingerprint is the 16-byte form of both IPs, both ports (mod 2^16) and the protocol
